@@ -1,6 +1,6 @@
 """Property -> rules."""
 from .prog import Program
-from . import rules_cg
+from . import rules_cg, lalr
 
 _progs = {}
 
@@ -14,6 +14,7 @@ def P(config="default"):
 def c02(chk, tier):
     chk.explanation = ("Static: (1) R-NOEXIT call-graph reachability of process terminators from the public API.")
     rules_cg.r_noexit(P(), chk)
+    lalr.r_lalr(P(), chk)
 
 
 def c05(chk, tier):
